@@ -953,6 +953,9 @@ def search(ctx, budget):
         c = d["case"]
         if "spec" in c and c["spec"].get("cls") in RUN_CLASSES:
             check_instance(ctx, c["spec"]["cls"], c["spec"]["max_iter"], c["spec"], "disagreement")
+    # pinned instance of the recorded finding C15:SDMM:early-stop:no-constraint-blocks (run in every tier)
+    check_instance(ctx, "SDMM", 60, dict(cls="SDMM", max_iter=60, seed=892020169, n=3, nL=0, c_norm=None, lam=1.0, mu=1.0,
+                                         eps_pri=0, eps_dual=0, cg=3), "pinned")
     n = int(250 * budget)
     t_before = TIMEOUTS["n"]
     for i in range(n):
